@@ -99,6 +99,16 @@ CHECKS["C19"] = ("fault_enumeration",
          "Proc.tla, Bounds.tla and Skip.tla are model-checked (safety invariants: exit in {0,1,2}, exit 0 => every emitted byte accepted by the sink, index < capacity, overflow <=> diagnosed; liveness: every skipping loop stops on every stream ending in EOF). All scenarios (k-th write fails/short, /dev/full, closed stdout, file size limit, unreadable/missing/directory input, r-th read fails), all boundary inputs (token lengths around every buffer capacity, 31/32/33 nesting levels, 63/64/65-byte diagnostics, nesting to 10^4) and all truncated streams TLC emits are executed on the ASan+UBSan and plain builds: status, write(2) log, sink bytes, outcome class compared. Memory safety on arbitrary bytes is exploration: Mutate.tla token mutants, byte mutants and truncation at every token boundary of the corpus under ASan+UBSan plus a valgrind sample, findings keyed by crash signature (kind + top in-repo frame).",
          "trusted: failwrite.c (ptrace injector), glibc's 4096-byte buffering (audited every run), sanitizer runtimes, the crash-signature normaliser. A new bug at an already known (kind, site) signature is masked; no allocator-failure injection; hang limit is CPU time.",
          "DESIGN.md §5 C19")
+CHECKS["C06"] = ("model_checking",
+         "TLA+ layout specification (Layout.tla: declarative LP64 ABI layout as least-position constraints vs exact transcription of decl.c addmember/tagspec accumulator and enum base selection) refined under TLC; TLC-enumerated and simulated types replayed into cproc-qbe for three targets; H4 trace validation (Trace_Layout.tla)",
+         "TLC checks that the accumulator (size, align, bits, pack, flexible) refines the declarative layout by one-step simulation from every reachable accumulator state (member sequences of every length, structs of bounded size) and on all full histories of <= 2/3 members over an 85-kind universe (scalars, arrays, nested/anonymous aggregates, _Alignas, flexible arrays, bit-fields of char/short/int/long x 14 widths x named/unnamed) x struct/union/packed, plus enum underlying types (plain, wide, 11 fixed types). 12.6 k / 25 k generated aggregates (nesting <= 4) and 9.8 k / 169 k enums are compiled for 3 targets; every sizeof, _Alignof, offsetof (nested, through anonymous members), bit-field position (image of `T x = {.bf = -1}`) and enum base is compared with TLC's numbers; every addmember call of real compilations is validated step by step.",
+         "trusted: clang 14 with three --target triples and gcc 12 as ABI references, used for audit only (disagreement = machinery error); ilparse; the H4 hook. aligned attribute, packed bit-fields and packed unions are diagnosed by cproc and not laid out.",
+         "DESIGN.md §5 C06")
+CHECKS["C08"] = ("model_checking",
+         "TLA+ ABI specification (Abi.tla: flattened field lists of the C type vs of the emitted QBE `type`, transcription of qbe.c emittype, SysV / AAPCS64 / LP64D classification) judging aggregate descriptors and parameter/return classes parsed from the IL of generated signatures",
+         "Structural clause only (the dynamic mixed-executable clause is NOT claimed: no qbe/assembler for cproc's IL exists here). 2.2 k / 24.6 k generated signatures x 3 targets (0..12 parameters from scalars and generated aggregates, variadic, va_list; definitions and call sites): function-header and call-operand classes and the variadic marker are compared with the spec's PClass/VClass; 4.3 k / 36.7 k emitted `type` definitions are judged by TLC ABI-equivalent (same size, alignment and register classification) or field-for-field equal to the C type; the emittype transcription is model-checked on 26 k / 852 k aggregates.",
+         "trusted: ilparse; the classification model is audited against clang's IR lowering for the three targets; aggregates in known problem classes (_Alignas members, packed, unnamed bit-field gaps, pointer+float on riscv64: QBE IL cannot express them) are attributed to named findings, not verified; long double and flexible-array aggregates excluded.",
+         "DESIGN.md §5 C08")
 NOT_YET = {}
 
 def main():
